@@ -25,3 +25,24 @@ Spec/Monitors.vos Spec/Monitors.vok Spec/Monitors.required_vos: Spec/Monitors.v 
 Spec/Runner.vo Spec/Runner.glob Spec/Runner.v.beautified Spec/Runner.required_vo: Spec/Runner.v Model/Types.vo Model/Book.vo Model/Obs.vo Model/Codec.vo Spec/RefBook.vo Spec/Monitors.vo
 Spec/Runner.vio: Spec/Runner.v Model/Types.vio Model/Book.vio Model/Obs.vio Model/Codec.vio Spec/RefBook.vio Spec/Monitors.vio
 Spec/Runner.vos Spec/Runner.vok Spec/Runner.required_vos: Spec/Runner.v Model/Types.vos Model/Book.vos Model/Obs.vos Model/Codec.vos Spec/RefBook.vos Spec/Monitors.vos
+Proofs/Basic.vo Proofs/Basic.glob Proofs/Basic.v.beautified Proofs/Basic.required_vo: Proofs/Basic.v Model/Types.vo Model/Map.vo Model/Side.vo Model/Book.vo
+Proofs/Basic.vio: Proofs/Basic.v Model/Types.vio Model/Map.vio Model/Side.vio Model/Book.vio
+Proofs/Basic.vos Proofs/Basic.vok Proofs/Basic.required_vos: Proofs/Basic.v Model/Types.vos Model/Map.vos Model/Side.vos Model/Book.vos
+Proofs/Grid.vo Proofs/Grid.glob Proofs/Grid.v.beautified Proofs/Grid.required_vo: Proofs/Grid.v Model/Types.vo Model/Map.vo Model/Side.vo Model/Book.vo Proofs/Basic.vo
+Proofs/Grid.vio: Proofs/Grid.v Model/Types.vio Model/Map.vio Model/Side.vio Model/Book.vio Proofs/Basic.vio
+Proofs/Grid.vos Proofs/Grid.vok Proofs/Grid.required_vos: Proofs/Grid.v Model/Types.vos Model/Map.vos Model/Side.vos Model/Book.vos Proofs/Basic.vos
+Proofs/NoTrade.vo Proofs/NoTrade.glob Proofs/NoTrade.v.beautified Proofs/NoTrade.required_vo: Proofs/NoTrade.v Model/Types.vo Model/Map.vo Model/Side.vo Model/Book.vo Model/Obs.vo Proofs/Basic.vo
+Proofs/NoTrade.vio: Proofs/NoTrade.v Model/Types.vio Model/Map.vio Model/Side.vio Model/Book.vio Model/Obs.vio Proofs/Basic.vio
+Proofs/NoTrade.vos Proofs/NoTrade.vok Proofs/NoTrade.required_vos: Proofs/NoTrade.v Model/Types.vos Model/Map.vos Model/Side.vos Model/Book.vos Model/Obs.vos Proofs/Basic.vos
+Proofs/Lifecycle.vo Proofs/Lifecycle.glob Proofs/Lifecycle.v.beautified Proofs/Lifecycle.required_vo: Proofs/Lifecycle.v Model/Types.vo Model/Map.vo Model/Side.vo Model/Book.vo Model/Obs.vo Proofs/Basic.vo
+Proofs/Lifecycle.vio: Proofs/Lifecycle.v Model/Types.vio Model/Map.vio Model/Side.vio Model/Book.vio Model/Obs.vio Proofs/Basic.vio
+Proofs/Lifecycle.vos Proofs/Lifecycle.vok Proofs/Lifecycle.required_vos: Proofs/Lifecycle.v Model/Types.vos Model/Map.vos Model/Side.vos Model/Book.vos Model/Obs.vos Proofs/Basic.vos
+Properties/C04.vo Properties/C04.glob Properties/C04.v.beautified Properties/C04.required_vo: Properties/C04.v Model/Types.vo Model/Book.vo Proofs/Lifecycle.vo
+Properties/C04.vio: Properties/C04.v Model/Types.vio Model/Book.vio Proofs/Lifecycle.vio
+Properties/C04.vos Properties/C04.vok Properties/C04.required_vos: Properties/C04.v Model/Types.vos Model/Book.vos Proofs/Lifecycle.vos
+Properties/C12.vo Properties/C12.glob Properties/C12.v.beautified Properties/C12.required_vo: Properties/C12.v Model/Types.vo Model/Book.vo Proofs/Grid.vo
+Properties/C12.vio: Properties/C12.v Model/Types.vio Model/Book.vio Proofs/Grid.vio
+Properties/C12.vos Properties/C12.vok Properties/C12.required_vos: Properties/C12.v Model/Types.vos Model/Book.vos Proofs/Grid.vos
+Properties/C13.vo Properties/C13.glob Properties/C13.v.beautified Properties/C13.required_vo: Properties/C13.v Model/Types.vo Model/Side.vo Model/Book.vo Model/Obs.vo Proofs/NoTrade.vo
+Properties/C13.vio: Properties/C13.v Model/Types.vio Model/Side.vio Model/Book.vio Model/Obs.vio Proofs/NoTrade.vio
+Properties/C13.vos Properties/C13.vok Properties/C13.required_vos: Properties/C13.v Model/Types.vos Model/Side.vos Model/Book.vos Model/Obs.vos Proofs/NoTrade.vos
